@@ -867,8 +867,11 @@ pub fn check_main(def: &PropDef, o: &CheckOpts) -> i32 {
         .set("wall_s", J::Num((wall * 100.0).round() / 100.0))
         .set("violations", J::u(viol_count))
         .set("replay", J::s(&replay_path));
-    let _ = std::fs::create_dir_all(format!("{VERIF}/evidence"));
-    let evp = format!("{VERIF}/evidence/{}.json", def.id);
+    // sensitivity runs against a deliberately broken tree (tools/try_seeded.sh) keep their
+    // evidence apart from that of the real tree
+    let evdir = std::env::var("VSIM_EVIDENCE_DIR").unwrap_or_else(|_| format!("{VERIF}/evidence"));
+    let _ = std::fs::create_dir_all(&evdir);
+    let evp = format!("{evdir}/{}.json", def.id);
     if let Err(e) = std::fs::write(&evp, ev.pretty()) {
         println!("HARNESS-ERROR cannot write evidence {evp}: {e}");
         exit = 2;
